@@ -247,3 +247,23 @@ PROPS["C18"] = dict(
     replay_attempts=200,
     gomaxprocs1=True,
 )
+
+PROPS["C06"] = dict(
+    level="model_checking",
+    technique="bounded symbolic execution of go/ssa (gosmt) + SMT (z3): differential run of the real badgerWAL against etcd's real MemoryStorage over an API-level Badger model; call kinds and indexes are path decisions, terms are solver variables travelling through the real gogo-generated raftpb Marshal/Unmarshal/Size code",
+    explanation="sequences of Save(appends incl. conflicting overwrites, hard state), Save(received snapshot below/at/above the last index), CreateSnapshot+compaction, reopen; after every call every read (FirstIndex, LastIndex, Term(i), Entries prefixes/suffixes under size limits, Snapshot, InitialState) is compared with MemoryStorage driven per the raft contract; a second group in the same database must be unaffected; DeleteGroup + new store must look fresh",
+    runs={
+        "quick": [
+            dict(pkg="./storage/wal", entry="VerifC06", bounds="calls=2,kinds=4,delete=1", unwind=300, reach=["end"]),
+            dict(pkg="./storage/wal", entry="VerifC06", bounds="calls=3,kinds=4,delete=0,batch=1,cmpall=0", unwind=300, reach=["end"]),
+        ],
+        "thorough": [
+            dict(pkg="./storage/wal", entry="VerifC06", bounds="calls=3,kinds=4,delete=1,batch=2", unwind=300, reach=["end"]),
+            dict(pkg="./storage/wal", entry="VerifC06", bounds="calls=4,kinds=4,delete=0,batch=1,cmpall=0", unwind=400, reach=["end"]),
+            dict(pkg="./storage/wal", entry="VerifC06", bounds="calls=3,kinds=4,delete=1,batch=1,gid=1", unwind=300, reach=["end"]),
+        ],
+    },
+    outside="Badger's own durability/compaction (API-level model; natively the replay uses a real in-memory Badger); more than 4 calls, batches over 2 entries, terms >= 100 (multi-byte varints); group ids chosen so that one group's 16-byte id is a prefix of another group's 18-byte 'hs'/'ss' key (ids are server-generated random UUIDs); concurrent use of one WAL",
+    assumptions=COMMON_ASSUME + ["Badger is an API-level model (ordered key/value set; View/Update/iterators with prefix, reverse and seek; WriteBatch applied in call order at Flush)",
+                                 "the reference is etcd MemoryStorage driven as the raft contract prescribes (append; hard state only if non-empty; snapshot only if non-empty), not the repository's memoryWAL.Save, which overwrites the hard state with an empty one"],
+)
